@@ -75,7 +75,7 @@ def generate(ctx, rng):
                 yield ("c", check, kind, pos), {"kind": kind, "check": check, "pos": pos, "xors": vals, "genuine_seen": pos % 2 == 1, "abandoned_refresh": pos % 3 == 2}
     # the length byte (position 1) with all 255 values over many different valid frames (a weakened outer check that trusts the
     # declared length is only fooled by particular frame contents)
-    for j in range(40 if quick else 600):
+    for j in range(40 if quick else 3000):
         yield ("lenbyte", j), {"kind": "lenbyte", "check": "crc", "fseed": rng.getrandbits(32)}
     # sanity: the uncorrupted frames ARE used (otherwise "unchanged" would be vacuous)
     yield ("baseline",), {"kind": "baseline", "check": "crc"}
